@@ -2,7 +2,9 @@
 
 mod corpus;
 mod gen_;
+mod jsonu;
 mod monitor;
+mod mutate;
 mod plug;
 mod props;
 mod registry;
@@ -32,6 +34,10 @@ fn main() {
         let out = args.get(3).cloned().unwrap_or(format!("{verif_dir}/corpus/corpus.jsonl"));
         let k = corpus::generate(&repo_dir, n, &out).expect("write corpus");
         println!("wrote {k} messages to {out}");
+        return;
+    }
+    if args[1] == "probe" {
+        probe(&args[2..]);
         return;
     }
     let prop = args[1].clone();
@@ -81,6 +87,7 @@ fn main() {
         let case = v.get("case").cloned().unwrap_or(v);
         let started = std::time::Instant::now();
         let local = match prop.as_str() {
+            "C02" => props::c02::replay(&cfg, &case),
             "C07" => props::c07::replay(&cfg, &case),
             _ => usage(),
         };
@@ -89,9 +96,56 @@ fn main() {
         monitor::finish_replay(&cfg2, started, local)
     } else {
         match prop.as_str() {
+            "C02" => props::c02::run(&cfg),
             "C07" => props::c07::run(&cfg),
             _ => usage(),
         }
     };
     std::process::exit(code);
+}
+
+/// Manual triage aid: `probe field <Type> <variant|-> <input>` / `probe b4 <mt> <text>` / `probe full <text>`
+/// (input may use \n escapes)
+fn probe(a: &[String]) {
+    let unesc = |s: &str| s.replace("\\r", "\r").replace("\\n", "\n");
+    match a.first().map(|s| s.as_str()) {
+        Some("field") => {
+            let ops = registry::field(&a[1]).expect("field type");
+            let input = unesc(&a[3]);
+            let r = if a[2] == "-" { (ops.parse)(&input) } else { (ops.parse_variant)(&input, Some(a[2].as_str()), None) };
+            match r {
+                Ok(v) => {
+                    println!("OK  dbg={}", v.dbg());
+                    println!("    swift={:?}", v.to_swift());
+                    println!("    json={}", v.json().map(|j| j.to_string()).unwrap_or_else(|e| e));
+                    println!("    variant_tag={:?}", v.variant_tag());
+                }
+                Err(e) => println!("ERR {e}"),
+            }
+        }
+        Some("b4") => {
+            let ops = registry::msg(&a[1]).expect("type");
+            let input = unesc(&a[2]);
+            swift_mt_message::verif_hooks::take();
+            match (ops.parse_b4)(&input) {
+                Ok(v) => {
+                    println!("OK  mt={:?}", v.to_mt());
+                    println!("    json={}", v.json().map(|j| j.to_string()).unwrap_or_else(|e| e));
+                    println!("    validate={:?}", v.validate(false).iter().map(|e| e.error_code().to_string()).collect::<Vec<_>>());
+                }
+                Err(e) => println!("ERR {e}"),
+            }
+            for ev in swift_mt_message::verif_hooks::take() {
+                println!("    hook {ev:?}");
+            }
+        }
+        Some("full") => {
+            let input = unesc(&a[1]);
+            match swift_mt_message::SwiftParser::parse_auto(&input) {
+                Ok(v) => println!("OK  {}", serde_json::to_string(&v).unwrap()),
+                Err(e) => println!("ERR {e}"),
+            }
+        }
+        _ => usage(),
+    }
 }
